@@ -1,6 +1,7 @@
 import ArgoVerif.Proofs.UnitMap
 import ArgoVerif.Proofs.UnitMapConc3
 import ArgoVerif.Proofs.Assoc
+import ArgoVerif.Model.UnitMapLock
 /-
 Props.C14 — user-defined pools: unit ↔ work-unit mapping.
 Property theorems only; lemmas live in Proofs/UnitMap.lean (sequential table),
@@ -366,5 +367,136 @@ example :
   decide
 
 end assoc
+
+/-! ### bucket-lock discipline: at most one bucket lock per table operation -/
+section locks
+open ArgoVerif.Model.UnitMap
+
+/-- **C14 (no nested bucket locks, interleaving model of unit.c)**.  In every reachable state of
+the interleaving model of `unit_map_thread` / `unit_unmap_thread` / the lock-free lookup: a caller
+holds at most one bucket lock, and a caller that is about to acquire a bucket lock (`mAcq`,
+`uAcq`) holds none.  Hence every wait-for edge starts at a caller that holds nothing: no cycle of
+bucket locks can form, whatever the hash puts where. -/
+theorem unitmap_one_bucket_lock_at_a_time (h : Nat → Nat) (tr : List (Nat × Act)) (s : CSt)
+    (hr : Star (Step h) CSt.init tr s) :
+    (∀ t b b', s.lock b = some t → s.lock b' = some t → b = b') ∧
+    (∀ t u th b, s.pc t = .mAcq u th → s.lock b ≠ some t) ∧
+    (∀ t u b, s.pc t = .uAcq u → s.lock b ≠ some t) := by
+  have hi : Inv h s := Star.invariant (Inv h) (fun s e s' => inv_step h s e s') hr (inv_init h)
+  refine ⟨?_, ?_, ?_⟩
+  · intro t b b' h1 h2
+    have e1 := hi.lock2 t b h1
+    have e2 := hi.lock2 t b' h2
+    rw [e1] at e2; exact Option.some.inj e2
+  · intro t u th b hpc hl
+    have := hi.lock2 t b hl
+    rw [hpc] at this; simp [holds] at this
+  · intro t u b hpc hl
+    have := hi.lock2 t b hl
+    rw [hpc] at this; simp [holds] at this
+
+/-- **C14 (a lock holder is never blocked)**.  Whoever holds a bucket lock always has an enabled
+transition of its own (it never waits for anything while holding the lock): together with the
+previous theorem, callers waiting for a bucket lock are eventually served under fair scheduling —
+the table operations cannot deadlock among themselves. -/
+theorem unitmap_lock_holder_can_step (h : Nat → Nat) (tr : List (Nat × Act)) (s : CSt)
+    (hr : Star (Step h) CSt.init tr s) (t b : Nat) (hl : s.lock b = some t) :
+    ∃ a s', Step h s (t, a) s' := by
+  have hi : Inv h s := Star.invariant (Inv h) (fun s e s' => inv_step h s e s') hr (inv_init h)
+  have hh := hi.lock2 t b hl
+  have hp := hi.pcs t
+  cases hpc : s.pc t with
+  | mHead u th => exact ⟨_, _, Step.mHead hpc⟩
+  | mScan u th cur =>
+    by_cases hc : cur = 0
+    · subst hc; exact ⟨_, _, Step.mScanEnd hpc⟩
+    · by_cases hu : (s.cell cur).unit = 0
+      · exact ⟨_, _, Step.mScanTomb hpc hc hu⟩
+      · exact ⟨_, _, Step.mScanUsed hpc hc hu⟩
+  | mNext u th cur => exact ⟨_, _, Step.mNext hpc⟩
+  | mSetUnit u th cur => exact ⟨_, _, Step.mSetUnit hpc⟩
+  | mSetThr u th cur => exact ⟨_, _, Step.mSetThr hpc⟩
+  | mAlloc u th => exact ⟨_, _, Step.mAllocOk hpc⟩
+  | mPub u th new => exact ⟨_, _, Step.mPub hpc⟩
+  | mRel u th ok => exact ⟨_, _, Step.mRel hpc⟩
+  | uHead u => exact ⟨_, _, Step.uHead hpc⟩
+  | uScan u cur =>
+    rw [hpc] at hp; simp only [PcOK] at hp
+    have hc : cur ≠ 0 := by omega
+    by_cases hu : (s.cell cur).unit = u
+    · exact ⟨_, _, Step.uScanHit hpc hc hu⟩
+    · exact ⟨_, _, Step.uScanMiss hpc hc hu⟩
+  | uNext u cur => exact ⟨_, _, Step.uNext hpc⟩
+  | uClear u cur => exact ⟨_, _, Step.uClear hpc⟩
+  | uRel u => exact ⟨_, _, Step.uRel hpc⟩
+  | _ => rw [hpc] at hh; simp [holds] at hh
+
+end locks
+
+section lockdisc
+open ArgoVerif.Model.UnitMapLock
+
+theorem lockdisc_inv (tr : List Ev) (s : St) (hr : machine.run init tr = some s) :
+    ∀ a b, s.lock b = some a ↔ s.held a = some b := by
+  refine Machine.invariant_run machine (fun s => ∀ a b, s.lock b = some a ↔ s.held a = some b) ?_ tr init s
+    (by intro a b; simp [init]) hr
+  intro s e s' hi hs
+  have hs' : exec s e = some s' := hs
+  cases e with
+  | acquire a b =>
+    simp only [exec] at hs'
+    split at hs'
+    · next hc =>
+      simp only [Option.some.injEq] at hs'; subst hs'
+      intro a' b'
+      have := hi a' b'; have := hi a b'; have := hi a' b
+      grind [upd]
+    · cases hs'
+  | spin a b =>
+    simp only [exec] at hs'
+    split at hs'
+    · simp only [Option.some.injEq] at hs'; subst hs'; exact hi
+    · cases hs'
+  | release a b =>
+    simp only [exec] at hs'
+    split at hs'
+    · next hc =>
+      simp only [Option.some.injEq] at hs'; subst hs'
+      intro a' b'
+      have := hi a' b'; have := hi a b'; have := hi a' b
+      grind [upd]
+    · cases hs'
+
+/-- **C14 (lock discipline of observed executions)**.  Every trace of bucket-lock operations that
+`Model.UnitMapLock` accepts: each actor holds at most one bucket lock at any time; an actor that
+waits for a bucket lock (failed test-and-set) holds none (this is the guard of `spin`); and the
+holder of any taken lock can release it at once without acquiring anything.  A real execution in
+which some stream acquires or waits for a second bucket lock while holding one is rejected — such
+executions are exactly the ones that can form a lock cycle. -/
+theorem lockdisc_no_hold_and_wait (tr : List Ev) (s : St) (hr : machine.run init tr = some s) :
+    (∀ a b b', s.lock b = some a → s.lock b' = some a → b = b') ∧
+    (∀ a b, s.lock b = some a → (exec s (.release a b)).isSome = true) ∧
+    (∀ a b s', exec s (.spin a b) = some s' → s.held a = none) := by
+  have hi := lockdisc_inv tr s hr
+  refine ⟨?_, ?_, ?_⟩
+  · intro a b b' h1 h2
+    have e1 := (hi a b).mp h1; have e2 := (hi a b').mp h2
+    rw [e1] at e2; exact Option.some.inj e2
+  · intro a b hl
+    have := (hi a b).mp hl
+    simp [exec, this, hl]
+  · intro a b s' hs
+    simp only [exec] at hs
+    split at hs
+    · next hc => exact hc.1
+    · cases hs
+
+/-- non-vacuity: two actors on two buckets, one waits; and the nested acquisition is rejected -/
+example : (machine.run init [.acquire 0 1, .spin 1 1, .acquire 1 2, .release 0 1, .release 1 2, .acquire 1 1,
+    .release 1 1]).isSome = true := by decide
+example : machine.run init [.acquire 0 1, .acquire 1 2, .acquire 0 2] = none := by decide
+example : machine.run init [.acquire 0 1, .acquire 1 2, .spin 0 2] = none := by decide
+
+end lockdisc
 
 end ArgoVerif.Props.C14
